@@ -153,8 +153,9 @@ for kk in ks:
             bad.append('C14 REFERENCE: %%s differs from the recorded function' %% tag)
         fun = lambda x: float(p.Calculate(Point(list(x), []), FunctionValue()).value)
         rnd = random.Random(kk)
-        for _ in range(300 if k else 30):
-            x = [rnd.uniform(-1, 1) for _ in range(n)]
+        pts_ = [[rnd.uniform(-1, 1) for _ in range(n)] for _ in range(300 if k else 30)]
+        pts_ += [[1.0] * n, [-1.0] * n, [1.0] + [0.3] * (n - 1), [0.2] * (n - 1) + [1.0], [-1.0] + [0.1] * (n - 1)]      # faces and corners of the closed box
+        for x in pts_:
             i = next((i for i in range(1, 10) if math.dist(x, M[i]) <= rho[i]), None)
             v = fun(x)
             if i is None and abs(v - (math.dist(x, M[0]) ** 2 + f[0])) > 1e-9: bad.append('C14 PARABOLOID: %%s at %%r' %% (tag, x)); break
